@@ -241,6 +241,47 @@ def build_registry():
             d = H.data.copy()
         return d
 
+    @r
+    def excited_density_matrix():
+        ag, ta = dimer()                       # bath at 300 K
+        return ag.get_excited_density_matrix().data.copy()
+
+    @r
+    def molecule_excited_density_matrix():
+        ta = qr.TimeAxis(0.0, 200, 2.0)
+        m = qr.Molecule([0.0, E(12000.0)])
+        m.set_dipole(0, 1, [1.0, 0.0, 0.0])
+        m.set_transition_environment((0, 1), cf(ta))
+        return m.get_excited_density_matrix().data.copy()
+
+    @r
+    def opensystem_rate_matrices():
+        ag, ta = dimer()
+        a = ag.get_RedfieldRateMatrix().data.copy()
+        b = ag.get_FoersterRateMatrix().data.copy()
+        return a, b
+
+    @r
+    def kt_hierarchy():
+        import io
+        import contextlib
+        ag, ta = dimer()
+        with contextlib.redirect_stdout(io.StringIO()):
+            hy = ag.get_KTHierarchy(depth=2)
+        return numpy.array(hy.hinds).copy()
+
+    @r
+    def electronic_hamiltonian():
+        ag, ta = dimer(bath=False)
+        return ag.get_electronic_Hamiltonian().data.copy()
+
+    @r
+    def rwa_suggestion_and_statevector():
+        ag, ta = dimer(bath=False)
+        x = ag.get_RWA_suggestion()
+        sv = ag.get_StateVector(condition_type="impulsive_excitation")
+        return x
+
     return reg
 
 
@@ -258,4 +299,10 @@ RETURNS = dict(
     spectral_density="energy", abs_spectrum="plain",
     rdm_propagation="plain", thermal_states=("plain", "plain"),
     axes_and_ft=("plain", "energy"), convert_function="plain",
-    eigenbasis_read="energy")
+    eigenbasis_read="energy",
+    excited_density_matrix="plain", molecule_excited_density_matrix="plain",
+    opensystem_rate_matrices=("plain", "plain"), kt_hierarchy="plain",
+    electronic_hamiltonian="energy")
+# (rwa_suggestion_and_statevector has no entry: the suggestion is an average
+# taken in the current units, which under the reciprocal unit nm is not the
+# average of the energies; only the units handling of the call is checked)
